@@ -274,4 +274,41 @@ theorem finishReal_exp_skip (c : List Nat) (e : Nat) (neg : Bool) (num off tmp s
   have hne : off ≠ Q + 1 + es.length + ks.length := by omega
   rw [adjust_exp_nodrop fo hasDot off dotOff _ Q k f kneg hskip hne hsmall hf]
 
+/-- `adjustExponent` for an integer mantissa followed directly by the exponent (no digit ignored, no dot) -/
+theorem adjust_exp_int (off dotOff T k : Nat) (kneg : Bool) (hoff0 : off ≠ 0) (hne : off ≠ T) (hoff : off < 2 ^ 32)
+    (hk : k < 100000000) :
+    adjustExponent false off dotOff 0 ⟨T, false, dotOff, off, k, kneg⟩ = netExp false k kneg 0 := by
+  have hs0 : sub32 0 0 = 0 := by decide
+  have ha0 : add32 0 0 = 0 := by decide
+  have hoo : sub32 off off = 0 := by rw [sub32_eq off off (Nat.le_refl _) hoff]; omega
+  have hk0a : add32 k 0 = k := add32_eq k 0 (by omega)
+  have hk0s : sub32 k 0 = k := by rw [sub32_eq k 0 (Nat.zero_le _) (by omega)]; rfl
+  rcases Nat.eq_zero_or_pos k with hkz | hkp
+  · subst hkz
+    cases kneg <;> simp [adjustExponent, netExp, hne, hoff0, hs0, ha0, hoo]
+  · have hk0 : k ≠ 0 := by omega
+    have hnle : ¬ (k ≤ 0) := by omega
+    cases kneg <;> simp [adjustExponent, netExp, hne, hoff0, hs0, ha0, hoo, hk0a, hk0s, hk0, hnle]
+
+/-- an integer mantissa (no dot seen) followed directly by an exponent of any number of digits, value below `10^8` -/
+theorem finishReal_exp_int (c : List Nat) (e : Nat) (neg : Bool) (num off tmp start dotOff m : Nat)
+    (es ks : List Nat) (hm : rd c e off = some m) (hmE : m = 101 ∨ m = 69) (hoff0 : off ≠ 0) (he : e < 2 ^ 32)
+    (hes : es = [] ∨ es = [43] ∨ es = [45]) (hks : AllDigits ks) (hk0 : ks ≠ [])
+    (hu : unitsAt c e (off + 1) (es ++ ks)) (hend : endsAt c e (off + 1 + es.length + ks.length) isDigit)
+    (hsmall : decVal ks < 100000000)
+    (ep10 : Nat) (hep : sub32 (sub32 tmp start) (b2n (!false && false)) = ep10) :
+    finishReal c e neg num off tmp start false false dotOff =
+      realResult neg num ep10 (netExp false (decVal ks) (decide (es = [45])) 0).1
+        (netExp false (decVal ks) (decide (es = [45])) 0).2 (off + 1 + es.length + ks.length) := by
+  have hlt := rd_lt hm
+  rw [finishReal, tail_skip_exp c e num off false dotOff off m es ks (fun k h1 h2 => by omega) (Nat.le_refl _) hm hmE hes hks hk0
+    hu hend]
+  simp only [hep, expSat_small ks hsmall, Bool.false_eq_true, if_false]
+  rw [if_neg (by omega)]
+  have hklen : 0 < ks.length := by
+    cases ks with
+    | nil => exact absurd rfl hk0
+    | cons a b => simp
+  rw [adjust_exp_int off dotOff _ (decVal ks) _ hoff0 (by omega) (by omega) hsmall]
+
 end Qentem.StrToNum
